@@ -322,10 +322,30 @@ def judge_tree(chk, pr, ents, reps, seed, max_us, full=True):
     return msgs, tie, obs
 
 
-def signature(ents, msgs):
-    lines = [l for e in ents if e[0] == 'I' for l in e[2].split('\n')]
+def special_hits(pr, trees):
+    """for each tree: the .xvc/.git directory entries that some whitelist line of an ignore file above them matches
+    according to the implementation's own Pattern::new + check (one harness batch for all trees)"""
+    lines, owner = [], []
+    for i, ents in enumerate(trees):
+        specials = [e[1] for e in ents if e[0] == 'D' and e[1].split('/')[-1] in ('.xvc', '.git')]
+        for q in specials:
+            for e in ents:
+                if e[0] != 'I' or not under(e[1], '/' + q): continue
+                for l in e[2].replace('\r', '').split('\n'):
+                    if l.startswith('!'):
+                        lines.append(f'check\t{hx("/" + q)}\tF{hx(e[1])}\t{hx(l)}'); owner.append((i, q))
+    hits = [set() for _ in trees]
+    if lines:
+        ans, _ = pr.impl_only(lines)
+        for (i, q), a in zip(owner, ans):
+            if a == 'whitelist': hits[i].add(q)
+    return hits
+
+
+def signature(pr, ents, msgs):
+    """decidable facts about the minimised failing tree"""
     sig = {'stream': 'tree'}
-    if any(l.startswith('!') and unsafe_white(l[1:]) for l in lines) and any('.xvc' in m or '.git' in m for m in msgs):
+    if any('.xvc' in m or '.git' in m for m in msgs) and special_hits(pr, [ents])[0]:
         sig = {'kind': 'whitelist-line-matches-.xvc-or-.git'}
     return sig
 
@@ -562,11 +582,16 @@ def run(chk: Check):
         pass
 
     # ---- S3c/S4 trees: walkers vs model, oracle
-    n_trees = 60 if quick else 600
+    n_trees = 60 if quick else 500
     reps = 25 if quick else 100
-    max_us = 300 if hooked else 0
+    max_us = (300 if quick else 120) if hooked else 0
     st = chk.tie['streams'].setdefault('tree', {'cases': 0, 'disagreements': 0, 'oracle_failures': 0, 'parallel_repetitions': 0})
     trees = [list(t) for t in CORPUS] + [gen_tree(rng, chk) for _ in range(n_trees)]
+    # known-finding region K11 is kept out of the generated stream: a whitelist line that matches a .xvc/.git directory
+    for i, hit in enumerate(special_hits(pr, trees)):
+        if hit:
+            chk.count('tree:special-dir-dropped(K11 region)', len(hit))
+            trees[i] = normalise([e for e in trees[i] if not any(e[1] == q or e[1].startswith(q + '/') for q in hit)])
     first_oracle, first_tie = None, None
     for i, ents in enumerate(trees):
         msgs, tie, obs = judge_tree(chk, pr, ents, reps, chk.seed * 100003 + i, max_us)
@@ -589,7 +614,7 @@ def run(chk: Check):
         seed = chk.seed * 100003 + i
         small = shrink_tree(ents, lambda c: bool(judge_tree(chk, pr, c, min(reps, 10), seed, max_us)[0]))
         m2 = judge_tree(chk, pr, small, reps, seed, max_us)[0] or msgs
-        chk.oracle_failure(m2[0], {'tree': small, 'show': show_tree(small)}, {'all': m2, 'original_tree': show_tree(ents)}, signature=signature(small, m2))
+        chk.oracle_failure(m2[0], {'tree': small, 'show': show_tree(small)}, {'all': m2, 'original_tree': show_tree(ents)}, signature=signature(pr, small, m2))
     if first_tie:
         i, ents, tie = first_tie
         small = shrink_tree(ents, lambda c: bool(judge_tree(chk, pr, c, 3, 1, 0)[1]))
@@ -601,7 +626,7 @@ def run(chk: Check):
         msgs, _, obs = judge_tree(chk, pr, ents, 5, 1, max_us, full=False)
         chk.count('known-replay')
         if msgs:
-            chk.oracle_failure(msgs[0], {'tree': ents, 'show': show_tree(ents)}, {'all': msgs, 'emitted': obs.get('serial')}, signature=signature(ents, msgs))
+            chk.oracle_failure(msgs[0], {'tree': ents, 'show': show_tree(ents)}, {'all': msgs, 'emitted': obs.get('serial')}, signature=signature(pr, ents, msgs))
 
     # ---- binary level
     n_bin = 10 if quick else 60
@@ -649,5 +674,5 @@ def replay(chk: Check, data):
         print('tree:'); [print('  ', l) for l in show_tree(ents)]
         print('oracle:', msgs or 'property holds on this input')
         if msgs:
-            chk.oracle_failure(msgs[0], case, {'all': msgs}, signature=signature(ents, msgs))
+            chk.oracle_failure(msgs[0], case, {'all': msgs}, signature=signature(pr, ents, msgs))
     return chk.finish()
